@@ -64,7 +64,7 @@ First == /\ prog = NoProg
          /\ \E ty \in Types, dec \in BOOLEAN, const \in BOOLEAN :
             \E v \in ValsOf(ty), u \in UnitsOf(ty) :
                /\ Fits(v, ty)
-               /\ (dec => v = None /\ ~const)
+               /\ (dec => v = None)
                /\ ~(v = None /\ u # "" /\ ~dec)                      \* `none` written with a unit: undocumented
                /\ prog' = [first |-> [dec |-> dec, ty |-> ty, v |-> v, u |-> u, const |-> const], mods |-> <<>>]
 Mod == /\ prog # NoProg /\ Len(prog.mods) < MaxMods
